@@ -72,6 +72,8 @@ FRAME_ATTRS = [('fk5', 'equinox', 'J1975'), ('fk5', 'equinox', 'J2015.5'), ('fk4
                ('heliocentrictrueecliptic', 'obstime', 'J1995')]
 EXTRA_ATTRS = [('icrs', 'obstime', 'J2010'), ('galactic', 'obstime', 'J2010'), ('icrs', 'equinox', 'J1975'),
                ('fk5', 'obstime', 'J2010'), ('galactic', 'equinox', 'B1950'), ('icrs', 'obstime', 'B1960')]
+CARRIERS = ['pyint', 'pyfloat', 'int64', 'int32', 'uint8', 'float64', 'float32']
+QCARRIERS = ['py', 'np64', 'f32', 'arr0', 'int']
 DS9_SYMBOLS = ['circle', 'box', 'diamond', 'x', 'cross', 'arrow', 'boxcircle']
 WORDS = ['a', 'bb', 'Crab', 'src 1', 'x_y', 'green', 'red', '', 'Zeta', 'tick']
 
@@ -119,6 +121,8 @@ def build(spec, world=None):
         return unfl(spec['v'])
     if t == 'int':
         return int(spec['v'])
+    if t == 'np':
+        return getattr(np, spec['dtype'])(spec['v'])
     if t == 'str':
         return spec['v']
     if t == 'bool':
@@ -134,6 +138,15 @@ def build(spec, world=None):
         return PixCoord(np.array([unfl(v) for v in spec['x']], dtype=float),
                         np.array([unfl(v) for v in spec['y']], dtype=float))
     if t == 'qty':
+        car = spec.get('carrier')
+        if car == 'np64':
+            return np.float64(unfl(spec['v'])) * u.Unit(spec['unit'])
+        if car == 'f32':
+            return u.Quantity(np.float32(unfl(spec['v'])), u.Unit(spec['unit']), dtype=np.float32)
+        if car == 'arr0':
+            return u.Quantity(np.array(unfl(spec['v'])), u.Unit(spec['unit']))
+        if car == 'int':
+            return u.Quantity(int(unfl(spec['v'])), u.Unit(spec['unit']))
         return unfl(spec['v']) * u.Unit(spec['unit'])
     if t == 'sky':
         fattrs = dict(spec.get('fattrs') or {})
@@ -950,6 +963,18 @@ class Check(PropertyCheck):
                         cases.append(self.gen_eq(g, cls, which, None, m, descend=False))
                 for what in ('class', 'unit', 'unit', 'same', 'same', 'nan', 'refl'):
                     cases.append(self.gen_eq(g, cls, what, descend=False))
+                # carrier types of every scalar parameter (Python int / float, numpy integer / float types;
+                # Quantity values as Python float, numpy scalar, float32, 0-d array, int)
+                for nm_, k_ in ALL[cls]:
+                    if k_ in ('pos', 'nvert', 'ang', 'posang'):
+                        cs_ = QCARRIERS if k_ in ('ang', 'posang') else CARRIERS
+                        pairs_ = [(x, y) for x in cs_[:2] for y in cs_] + [(y, x) for x in cs_[:2] for y in cs_[2:]]
+                        pairs_ += [(rng.choice(cs_), rng.choice(cs_)) for _ in range(4)]
+                        for (x, y) in pairs_:
+                            cases.append(self.gen_eq(g, cls, 'carrier', nm_, ('same', x, y), descend=False))
+                        for _ in range(3):
+                            cases.append(self.gen_eq(g, cls, 'carrier', nm_,
+                                                     ('diff', rng.choice(cs_), rng.choice(cs_)), descend=False))
                 # frame attributes of every sky position (equinox, obstime), and equivalent spellings
                 for nm_, k_ in ALL[cls]:
                     if k_ in ('sky', 'skyarr'):
@@ -1384,6 +1409,28 @@ class Check(PropertyCheck):
             set_param(ta, nm, va)
             set_param(tgt, nm, vb)
             info.update(mode=mode, field=nm, frame=fname, attr=attr)
+        if what == 'carrier':
+            # the same NUMBER carried by different Python / numpy types on the two sides
+            mode, ca, cb = fmode
+            nm = field
+            k = tk[nm]
+            ta = a
+            for pth in path:
+                ta = get_param(ta, pth)
+            base = 2 if nm.startswith('inner_') else 6 if nm.startswith('outer_') else 5
+            vals = (base, base if mode == 'same' else base + 1)
+
+            def carried(c, v):
+                if k in ('ang', 'posang'):
+                    return {'t': 'qty', 'v': fl(float(v)), 'unit': 'deg', 'carrier': c}
+                if c == 'pyint':
+                    return {'t': 'int', 'v': v}
+                if c == 'pyfloat':
+                    return {'t': 'num', 'v': fl(float(v))}
+                return {'t': 'np', 'dtype': c, 'v': v}
+            set_param(ta, nm, carried(ca, vals[0]))
+            set_param(tgt, nm, carried(cb, vals[1]))
+            info.update(mode=mode, field=nm, carriers=[ca, cb])
         if what == 'marker':
             sa, sb = fmode
             info.update(mode='same' if sb is None else 'value', key='marker', syms=[sa, sb])
@@ -1943,9 +1990,10 @@ class Check(PropertyCheck):
                 return V
             expect = None
             if what in ('same', 'unit', 'refl') or (what == 'marker' and info['mode'] == 'same') \
-                    or (what in ('frameattr', 'xattr') and info['mode'] == 'equiv'):
+                    or (what in ('frameattr', 'xattr') and info['mode'] == 'equiv') \
+                    or (what == 'carrier' and info['mode'] == 'same'):
                 expect = True
-            elif what in ('frameattr', 'xattr'):
+            elif what in ('frameattr', 'xattr', 'carrier'):
                 expect = False
             elif what == 'marker':
                 expect = False
